@@ -23,6 +23,7 @@ import GgrsModel.Proofs.SpecRing
 import GgrsModel.Proofs.SpecHost
 import GgrsModel.Proofs.DelayStep
 import GgrsModel.Proofs.LockstepNet
+import GgrsModel.Proofs.DropSpec
 
 namespace Ggrs.Spectator
 
@@ -182,5 +183,34 @@ theorem C06_lockstep_net_delay (x y : P2P × TLState) (h0 : LkNetInv x) (hrun : 
   obtain ⟨gh1, gh', sA, sB, sC, sD, hl', _, _, hsp, hpre, a1, a2, a3, b1, b2, b3⟩ :=
     lockstepTick_net y.1 s' gh y.2 now reqs' hl hg hn hadv
   exact ⟨gh, gh1, gh', sA, sB, sC, sD, hl, hl', hsp, hpre, a1, a2, a3, b1, b2, b3⟩
+
+end Ggrs
+
+namespace Ggrs
+
+/-- **C06/C07, the host's side with dropped players (non-sparse rollback sessions, drops detected
+locally).** After any run of arrivals, calls, accepted `disconnect_player` calls and Disconnected
+events, one more call offers its spectator endpoints exactly the frames `next_spectator_frame,
+next_spectator_frame + 1, …` in this order, never beyond `confirmed_frame()` (the minimum over the
+players still connected), each together with the host's connection statuses, and each the row
+`rowMapD`: for a player marked disconnected with a last frame before the offered frame the blank
+input that carries no frame — which is what the spectator turns into status Disconnected — and for
+everybody else the real input of that frame. So what the spectators are shown of a dropped player
+is what the host's own game was (re-)simulated with (`C07_final_timeline`): real inputs up to the
+last frame, blank/Disconnected after it. -/
+theorem C06_host_rows_drops (x y : P2P × TLState) (h0 : XInv x) (hn : 0 ≤ x.1.nextSpectatorFrame)
+    (hrun : XStar x y) (now : Nat) (s' : P2P) (reqs' : List Request)
+    (hadv : y.1.advanceRollbackFrame now [] = .ok (s', reqs')) :
+    ∃ (gh1 : DGhost) (confirmed : Frame) (s1 s2 : P2P),
+      y.1.confirmedFrame = .ok confirmed ∧ s1.nextSpectatorFrame = y.1.nextSpectatorFrame ∧
+      OffersD gh1 y.1.localConnectStatus y.1.sync.queues.length now s1 s2 ∧
+      s'.nextSpectatorFrame = s2.nextSpectatorFrame ∧
+      y.1.nextSpectatorFrame ≤ s'.nextSpectatorFrame ∧
+      s'.nextSpectatorFrame ≤ max y.1.nextSpectatorFrame (confirmed + 1) := by
+  obtain ⟨gh, st0, hy⟩ := XInv_run x y h0 hrun
+  have hny := nsf_runX x y h0 hn hrun
+  obtain ⟨confirmed, s1, s2, gh1, hconf, _, hn1, hoff, hn', hl1, hl2⟩ :=
+    rollbackTick_offersD y.1 s' gh y.2 [] reqs' now st0 hy hny hadv
+  exact ⟨gh1, confirmed, s1, s2, hconf, hn1, hoff, hn', hl1, hl2⟩
 
 end Ggrs
